@@ -178,7 +178,8 @@ def overlapping_fields(rng, sv, doc):
     variants = ["direct", "inline", "spread", "nested", "args", "types", "nested-spread"]
     rng.shuffle(variants)
     for v in variants:
-        objlists = [(l, par, df, depth) for l, par, df, depth in p.lists if par and sv.kind(par) in ("object", "interface")]
+        objlists = [(l, par, df, depth) for l, par, df, depth in p.lists if par and sv.kind(par) in ("object", "interface")
+                    and not (df["k"] == "op" and df["op"] == "subscription" and depth == 0)]
         rng.shuffle(objlists)
         for l, par, df, depth in objlists:
             lf = leaf_field(sv, par, lambda f: not f.get("args"))
@@ -502,6 +503,8 @@ def _bad_literal(rng, sv, t):
         if r is None:
             return None
         v, f = r
+        if f.startswith("null-for-non-null"):
+            return ("list", [v]), f + "-in-list"      # a bare `null` would be a valid null LIST
         return (("list", [v]), f + "-in-list") if rng.random() < 0.7 else (v, f + "-as-single-item")
     b = t[1]
     k = sv.kind(b)
